@@ -586,6 +586,13 @@ class C04(Oracle):
         prop_inacc = any(status_dict(st.pre[i]['status']).get('inaccuracy') for i in sto.prop if i in st.pre)
         if st.extra.get('const_inexact'):
             prop_inacc = True     # the constant operand was itself quantized inexactly: it carries the flag
+        # a re-entrant callback of the destination may have written to an OPERAND while this operation
+        # was in flight; the wrappers read the operands' flags after the store, so the result may
+        # legitimately carry a flag the operand only got during the step (seen: VERIF_SEED=122)
+        prop_late = False
+        if sto.prop and any(n.dest in sto.prop for n in all_nested(st)):
+            prop_late = any(w.slots[i].alive and isinstance(w.slots[i].obj.status, dict) and
+                            w.slots[i].obj.status.get('inaccuracy') for i in sto.prop)
         post = {f: bool(tgt.status.get(f, False)) for f in FLAGS}
         aborted = st.outcome == 'aborted'
         judged_exact = False
@@ -700,6 +707,8 @@ class C04(Oracle):
                 ok = post[f] == want
                 if f == 'inaccuracy' and src_inacc and post[f] is True:
                     ok = True   # documented propagation from an inexact Fxp source (issue #48)
+                if f == 'inaccuracy' and prop_late and post[f] is True:
+                    ok = True   # the operand became inexact while the operation was in flight
                 if aborted:
                     ok = (post[f] or not pflags.get(f, False)) and (not post[f] or want or src_inacc)
                 if not ok:
